@@ -167,7 +167,7 @@ func afterC12(w *World) {
 			returned := c.ReturnSeq != 0
 			w.rule("C12.stub-returns", returned)
 			if !returned {
-				w.violate("C12", "caller-stranded", w.closeCause(m, w.c12Key(c)), "call t%d (%s, ctx %s, invoked %s Close) is still inside the stub invocation 10 s (simulated) after Close returned: %s", c.Tok, c.Stub, c.CtxKind, beforeAfter(c), w.whereIs(c))
+				w.violate("C12", "caller-stranded", w.closeCause(m, w.c12Key(c)), "call t%d (%s, ctx %s, invoked %s Close) is still inside the stub invocation 10 s (simulated) after Close returned (routing entries left: %s): %s", c.Tok, c.Stub, c.CtxKind, beforeAfter(c), w.residueText(m), w.whereIs(c))
 				continue
 			}
 			complete := c.DoneSeq != 0
@@ -219,6 +219,11 @@ func (w *World) closeCause(m *Mgr, fallback string) string {
 		return "request-never-answered"
 	}
 	return fallback
+}
+
+func (w *World) residueText(m *Mgr) string {
+	_, d := w.residue(m)
+	return d
 }
 
 func beforeAfter(c *Call) string {
@@ -304,6 +309,21 @@ func genC18(g *gen) {
 		}
 		g.prog.Threads = append(g.prog.Threads, th)
 	}
+	if g.chance(0.3) {
+		// connections that break while calls are outstanding (and come back): failed sends and
+		// failed streams are one more way for a call to end
+		c.FaultFree = false
+		for k := 1 + g.r.IntN(3); k > 0; k-- {
+			si := g.r.IntN(c.NServers)
+			a := 30 + g.r.IntN(600)
+			switch pick(g.r, "reset", "crash") {
+			case "reset":
+				g.prog.Faults = append(g.prog.Faults, &Fault{Kind: "reset", Srv: si, Mgr: -1, AtStep: a})
+			case "crash":
+				g.prog.Faults = append(g.prog.Faults, &Fault{Kind: "crash", Srv: si, Mgr: -1, AtStep: a}, &Fault{Kind: "restart", Srv: si, AtStep: a + 1 + g.r.IntN(200)})
+			}
+		}
+	}
 }
 
 // residue sums, name-agnostically, the lengths of all maps reachable from the manager's node
@@ -371,6 +391,11 @@ func afterC18(w *World) {
 			}
 		}
 	}
+	for _, s := range w.servers {
+		if !s.Up {
+			w.startServer(s)
+		}
+	}
 	w.defaultSettle()
 	// extra quiet time so that every deadline context has fired and every straggler has arrived
 	w.grace("quiet", false, 3*time.Second, 8000, nil)
@@ -402,21 +427,34 @@ func afterC18(w *World) {
 		if res != 0 {
 			w.violate("C18", "routing-residue", w.residueKey(), "after every call had ended and every targeted node had answered, the client keeps %d routing entries: %s (calls: %s)", res, detail, w.endKinds())
 		}
-		// goroutines: only the per-node sender/receiver pairs may be alive
-		var extra []string
-		perNode := map[string]int{}
+		// goroutines: a library goroutine that descends from a call invocation (task tree) must be
+		// gone; of the goroutines that descend from the manager's set-up (per-node infrastructure and
+		// whatever it spawns per request) at most one of each kind and two in total may exist per node
+		roles := w.sched.LiveRoles()
+		count := map[string]int{}
+		total := 0
+		var extra, infra []string
 		for _, n := range w.clientLibTasks(m) {
-			// tasks spawned directly by the setup task are the per-node infrastructure
-			rest := strings.TrimPrefix(n, m.Name+"/setup/")
-			if rest != n && strings.Count(rest, "/") <= 1 {
-				perNode[rest]++
+			if !strings.HasPrefix(n, m.Name+"/setup/") {
+				extra = append(extra, n)
 				continue
 			}
-			extra = append(extra, n)
+			count[roles[n]]++
+			total++
+			infra = append(infra, n)
 		}
+		for r, k := range count {
+			if k > len(m.rawNodes) {
+				extra = append(extra, fmt.Sprintf("%d goroutines of kind %q for %d nodes", k, r, len(m.rawNodes)))
+			}
+		}
+		if total > 2*len(m.rawNodes) {
+			extra = append(extra, fmt.Sprintf("%d infrastructure goroutines for %d nodes: %v", total, len(m.rawNodes), infra))
+		}
+		sort.Strings(extra)
 		w.rule("C18.no-call-goroutine-left", len(extra) == 0)
 		if len(extra) > 0 {
-			w.violate("C18", "goroutine-residue", leakKey(extra), "after every call had ended and every targeted node had answered, %d goroutines started for calls are still alive: %v | %s", len(extra), extra, w.stuckReport())
+			w.violate("C18", "goroutine-residue", leakKey(extra), "after every call had ended and every targeted node had answered, goroutines started for calls are still alive: %v | %s", extra, w.stuckReport())
 		}
 	}
 	w.checkCore()
